@@ -29,7 +29,7 @@
    v0 hook or with ExecuteOnSynchronization = false, [t_exec]) and calls the combiner only behind the
    gate [gate] (run, v1, not an ungrouped kubernetes Synchronization), with stopCombineFn
    [stop_combine].  Spec vocabulary: [not_executed], [stop_rule], [exempt], [synchronization]. *)
-From Verif Require Import Common C07_Model C07_Spec C07_Proofs C07_PolicyProofs.
+From Verif Require Import Common C07_Model C07_Spec C07_Proofs C07_PolicyProofs C07_LongSpec C07_LongProofs.
 
 (* the whole decidable predicate P of C07_Spec holds of the model on EVERY input
    (P itself restricts to well-formed layouts) *)
@@ -367,4 +367,122 @@ Proof.
   split; [exact (stop_of_blind _)|]. split; [vm_compute; reflexivity|].
   split; [intros [] [] []; vm_compute; repeat split; reflexivity|].
   split; vm_compute; reflexivity.
+Qed.
+
+(* ---------------------------------------------------------------- the LENGTH of the backlog (seeded change C07-9)
+
+   "the tasks immediately following it for the same hook are merged into it ... all their binding contexts,
+   exactly those tasks disappear" has no bound.  Every theorem above quantifies over all lists already; here
+   the length is made explicit.  Vocabulary (C07_LongSpec): [len_N] = length as an N; [followers stop t rest] =
+   the length of the maximal run of tasks at the front of [rest] that are mergeable into the head [t] (N);
+   [P_count] / [P_set_count] / [P_session_count] = "the queue gets shorter by exactly that number" on an
+   observation of a call / of a call on a queue set / of every step of a session that executes a head of a v1 hook. *)
+
+(* a run of mergeable tasks, of ANY length, followed by a task that is not mergeable is the block *)
+Theorem C07_run_of_any_length_is_the_block : forall stop t run other tail,
+  forallb (mergeable stop t) run = true -> mergeable stop t other = false ->
+  block stop t (run ++ other :: tail) = run /\ after_block stop t (run ++ other :: tail) = other :: tail.
+Proof. exact block_of_run. Qed.
+Print Assumptions C07_run_of_any_length_is_the_block.
+
+(* one call of the combiner on [t; run ...; other; tail ...] (+ [app] arriving meanwhile), [run] of any
+   length >= 1: the result holds the compacted concatenation of the contexts of the head and of the WHOLE
+   run and all their monitor ids; the queue is [t; other; tail ...; app ...]; the number of tasks that
+   disappeared is the length of the run *)
+Theorem C07_backlog_of_any_length_is_merged : forall stop t run other tail app,
+  t_meta t = true -> NoDup (map t_id (t :: (run ++ other :: tail) ++ app)) ->
+  run <> [] ->
+  forallb (mergeable stop t) run = true -> mergeable stop t other = false ->
+  let p := combine_concurrent stop t (t :: run ++ other :: tail) app in
+  (exists res, fst p = Some res
+               /\ r_ctxs res = spec_compact (t_ctxs t ++ flat_map t_ctxs run)
+               /\ r_mids res = t_mids t ++ flat_map t_mids run)
+  /\ snd p = t :: other :: tail ++ app
+  /\ (N.of_nat (length (t :: (run ++ other :: tail) ++ app)) - N.of_nat (length (snd p)))%N = len_N run.
+Proof. exact long_backlog_merged. Qed.
+Print Assumptions C07_backlog_of_any_length_is_merged.
+
+(* the number of followers the model merges is the length of the maximal same-hook run, whatever it is *)
+Theorem C07_merged_count_is_run_length : forall stop t rest app,
+  t_meta t = true -> NoDup (map t_id (t :: rest ++ app)) ->
+  (len_N (snd (combine_concurrent stop t (t :: rest) app)) + followers stop t rest)%N
+  = len_N (t :: rest ++ app)
+  /\ followers stop t rest = N.of_nat (length (block stop t rest)).
+Proof. intros stop t rest app Hm Hnd. split; [now apply merged_count_is_run_length | apply followers_block]. Qed.
+Print Assumptions C07_merged_count_is_run_length.
+
+(* the count clauses follow from the property's predicates, for ANY observation; so they hold of the model *)
+Theorem C07_P_implies_count : forall i o, P i o = true -> P_count i o = true.
+Proof. exact P_implies_P_count. Qed.
+Print Assumptions C07_P_implies_count.
+
+Theorem C07_count_holds : forall i, P_count i (run_model i) = true.
+Proof. exact P_count_holds. Qed.
+Print Assumptions C07_count_holds.
+
+Theorem C07_set_count_holds : forall i, P_set_count i (run_set i) = true.
+Proof. exact P_set_count_holds. Qed.
+Print Assumptions C07_set_count_holds.
+
+Theorem C07_session_count_holds : forall v0s steps qs,
+  P_session_count v0s qs steps (run_session v0s qs steps) = true.
+Proof. exact P_session_count_holds. Qed.
+Print Assumptions C07_session_count_holds.
+
+(* the forms of the predicates that the generated case files evaluate (linear time under call-by-value)
+   are the predicates of C07_Spec *)
+Theorem C07_lz_is_P : forall i o, P_lz i o = P i o.
+Proof. exact P_lz_eq. Qed.
+Print Assumptions C07_lz_is_P.
+
+Theorem C07_lz_is_P_set : forall i o, P_set_lz i o = P_set i o.
+Proof. exact P_set_lz_eq. Qed.
+Print Assumptions C07_lz_is_P_set.
+
+Theorem C07_lz_is_P_session : forall v0s steps qs obs, P_session_lz v0s qs steps obs = P_session v0s qs steps obs.
+Proof. exact P_session_lz_eq. Qed.
+Print Assumptions C07_lz_is_P_session.
+
+(* non-vacuity: a backlog of 300 tasks of hook 1 (task k carries context k of group "a" for k divisible by 3,
+   without group otherwise, and monitor id 1000+k) behind the head, then a task of hook 2, then one of hook 1;
+   one more task of hook 1 arrives meanwhile.  A "batch" of 128 does not satisfy the predicates. *)
+Fixpoint ex_run (n : nat) (k : N) : list task :=
+  match n with
+  | O => []
+  | S n' => mkTask k 1 0 true [mkCtx k (if N.eqb (k mod 3) 0 then 1 else 0)] [1000 + k] 1 :: ex_run n' (N.succ k)
+  end%N.
+Definition ex_long_t : task := mkTask 1 1 0 true [mkCtx 1 0] [] 1.
+Definition ex_long_run : list task := ex_run (N.to_nat 300) 2.
+Definition ex_long_other : task := mkTask 900 2 0 true [mkCtx 900 0] [] 1.
+Definition ex_long_tail : list task := [mkTask 901 1 0 true [mkCtx 901 0] [] 1]%N.
+Definition ex_long_app : list task := [mkTask 902 1 0 true [mkCtx 902 0] [] 1]%N.
+Definition ex_long_in : input :=
+  mkIn ex_long_t [] (ex_long_t :: ex_long_run ++ ex_long_other :: ex_long_tail) ex_long_app.
+(* what a combiner that absorbs at most 128 tasks would leave: a result with the head's and 128 followers'
+   contexts, the other 172 followers still in the queue *)
+Definition ex_batch_obs : obs :=
+  mkObs (Some (compact (t_ctxs ex_long_t ++ flat_map t_ctxs (firstn 128 ex_long_run)),
+               flat_map t_mids (firstn 128 ex_long_run)))
+        (map t_id (ex_long_t :: skipn 128 ex_long_run ++ ex_long_other :: ex_long_tail ++ ex_long_app)).
+
+Example C07_long_hyp_met :
+  t_meta ex_long_t = true
+  /\ NoDup (map t_id (ex_long_t :: (ex_long_run ++ ex_long_other :: ex_long_tail) ++ ex_long_app))
+  /\ ex_long_run <> []
+  /\ forallb (mergeable (fun _ => false) ex_long_t) ex_long_run = true
+  /\ mergeable (fun _ => false) ex_long_t ex_long_other = false
+  /\ len_N ex_long_run = 300%N
+  /\ followers (fun _ => false) ex_long_t (ex_long_run ++ ex_long_other :: ex_long_tail) = 300%N
+  /\ map t_id (snd (combine_concurrent (fun _ => false) ex_long_t
+                     (ex_long_t :: ex_long_run ++ ex_long_other :: ex_long_tail) ex_long_app))
+     = [1; 900; 901; 902]%N
+  /\ wf ex_long_in = true
+  /\ P ex_long_in ex_batch_obs = false
+  /\ P_count ex_long_in ex_batch_obs = false.
+Proof.
+  split; [reflexivity|]. split; [apply nodupb_NoDup; vm_compute; reflexivity|].
+  split; [discriminate|].
+  (* [P] itself is evaluated in its _lz form (C07_lz_is_P): under call-by-value the form of C07_Spec needs 2^n steps *)
+  rewrite <- C07_lz_is_P.
+  do 7 (split; [vm_compute; reflexivity|]). vm_compute; reflexivity.
 Qed.
